@@ -146,6 +146,80 @@ class L11(Component):  # same through struct: field written, read as field and t
     def blk2(): s.q @= s.p.a
     @update
     def blk3(): s.y @= concat(s.p.a, s.p.a) + 1
+class L12(Component):  # two blocks of one cycle linked in the SAME direction by a plain signal and by a struct field (field written, whole struct read)
+  def construct(s):
+    s.in_ = InPort(8); s.in2 = InPort(8); s.p = Wire(8); s.c = Wire(8); s.d = Wire(8); s.e = OutPort(8); s.st = Wire(Pair8); s.y = OutPort(Pair8)
+    @update
+    def up_pre(): s.p @= s.in2
+    @update
+    def up_use():
+      s.y @= s.st
+      s.e @= s.c
+      s.d @= s.p
+    @update
+    def up_pack():
+      s.st.a @= s.in_
+      s.st.b @= 3
+      s.c @= s.d + 1
+class L12twin(Component):
+  def construct(s):
+    s.in_ = InPort(8); s.in2 = InPort(8); s.e = OutPort(8); s.y = OutPort(Pair8)
+    @update
+    def up():
+      s.y.a @= s.in_
+      s.y.b @= 3
+      s.e @= s.in2 + 1
+class L13(Component):  # same with slices: a slice written, the whole wire read, plus a second plain signal in the same direction
+  def construct(s):
+    s.in_ = InPort(4); s.in2 = InPort(4); s.w = Wire(8); s.c = Wire(4); s.d = Wire(4); s.y = OutPort(8); s.e = OutPort(4)
+    @update
+    def up_use():
+      s.y @= s.w
+      s.e @= s.c
+      s.d @= s.in2
+    @update
+    def up_pack():
+      s.w[0:4] @= s.in_
+      s.w[4:8] @= 5
+      s.c @= s.d + 1
+class Lane(Component):
+  def construct(s):
+    s.in_ = InPort(4); s.en = InPort(); s.x = InPort(4); s.out = OutPort(4)
+    @update
+    def up_lane():
+      if s.en: s.out @= s.in_ | s.x
+      else:    s.out @= s.in_
+class RingComp(Component):   # a large cyclic group made of sibling component instances (identical block names)
+  def construct(s):
+    n = 12
+    s.x = InPort(4); s.en = InPort(n); s.out = OutPort(4)
+    s.lane = [Lane() for _ in range(n)]
+    for i in range(n):
+      s.lane[i].in_ //= s.lane[(i - 1) % n].out
+      s.lane[i].en //= s.en[i]
+      s.lane[i].x //= s.x
+    s.out //= s.lane[n - 1].out
+class PLane(Component):
+  def construct(s, k):
+    s.in_ = InPort(8); s.out = OutPort(8)
+    @update
+    def up():
+      if s.in_ < 128: s.out @= s.in_ + k
+      else:           s.out @= s.in_ - k
+class ForkJoin(Component):   # wide fork/join false loop: 12 PARALLEL sibling lanes (identical block names) between a fork and a join block
+  def construct(s):
+    s.in_ = InPort(8); s.in2 = InPort(8); s.x = Wire(8); s.w = Wire(8); s.z = OutPort(8); s.total = OutPort(8)
+    s.lanes = [PLane(i + 1) for i in range(12)]
+    for i in range(12): s.lanes[i].in_ //= s.x
+    @update
+    def up_fork():
+      s.x @= s.in_
+      s.z @= s.w + 1
+    @update
+    def up_join():
+      s.w @= s.in2
+      s.total @= s.lanes[0].out ^ s.lanes[1].out ^ s.lanes[2].out ^ s.lanes[3].out ^ s.lanes[4].out ^ s.lanes[5].out ^ \
+                 s.lanes[6].out ^ s.lanes[7].out ^ s.lanes[8].out ^ s.lanes[9].out ^ s.lanes[10].out ^ s.lanes[11].out
 class L8(Component):   # false loop through list elements
   def construct(s):
     s.in_ = InPort(4); s.out = OutPort(4); s.v = [Wire(4) for _ in range(3)]
@@ -234,8 +308,8 @@ class Once(Component):   # update_once inside a cycle: must be rejected at sched
     @update_once
     def upB(): s.b @= s.a & 6
 '''
-NAMES = ['L0', 'L1', 'L2', 'L3', 'L4', 'L5', 'L6', 'L7', 'L8', 'L9', 'L10', 'L11', 'Ring']
-TWINS = {'L6': ('L6twin', ['s.w']), 'L7': ('L7twin', ['s.z']), 'L10': ('L10twin', ['s.q', 's.z'])}
+NAMES = ['L0', 'L1', 'L2', 'L3', 'L4', 'L5', 'L6', 'L7', 'L8', 'L9', 'L10', 'L11', 'L12', 'L13', 'Ring', 'RingComp', 'ForkJoin']
+TWINS = {'L6': ('L6twin', ['s.w']), 'L7': ('L7twin', ['s.z']), 'L10': ('L10twin', ['s.q', 's.z']), 'L12': ('L12twin', ['s.e', 's.y.a', 's.y.b'])}
 _mod = None
 
 
